@@ -62,9 +62,14 @@ func C14(c *Ctx) {
 		arena = nil
 	}
 	n := c.N(240000, 24000000)
+	roActive := false
 	for i := int64(0); i < n; i++ {
 		if !c.Mine(i) {
 			continue
+		}
+		if roActive { // a case that ended early (panic path) left the page read-only
+			arena.readOnly(false)
+			roActive = false
 		}
 		r := c.Begin(i)
 		setter := int(i % 7)
@@ -78,6 +83,7 @@ func C14(c *Ctx) {
 		// input
 		var in []byte
 		var why string
+		inReadOnly := false
 		if setter != 1 {
 			if fail {
 				contentFail := (setter == 0 || setter == 2) && r.Bool()
@@ -130,6 +136,13 @@ func C14(c *Ctx) {
 			copy(arena.mem[off:off+len(in)], in)
 			in = arena.mem[off : off+len(in) : off+len(in)]
 			c.Tally("inputs placed at the " + where + " of a guard-paged buffer")
+			// "no setter ever modifies its input", observed exactly: the page holding the input
+			// is read-only during the call, so a store into the input faults even if the setter
+			// would have restored the bytes before returning
+			if arena.readOnly(true) == nil {
+				inReadOnly, roActive = true, true
+				c.Tally("inputs in read-only memory during the call")
+			}
 		}
 		inCopy := append([]byte(nil), in...)
 		det := map[string]any{"setter": name, "receiver": rsName, "input": hx(in), "why": why}
@@ -316,6 +329,10 @@ func C14(c *Ctx) {
 			} else {
 				valueAfter = func() string { return string(recv.Bytes()) }
 			}
+		}
+		if inReadOnly {
+			arena.readOnly(false)
+			roActive = false
 		}
 		if string(in) != string(inCopy) {
 			c.Fail("setter modified its input slice", det)
